@@ -3,7 +3,7 @@
 # usage: tools/eval_seeded.sh [seeded-id ...]    prints one line per change
 cd /verif || exit 2
 if [ -n "$(git -C /repo status --porcelain --untracked-files=no)" ]; then echo "/repo is not clean"; exit 2; fi
-ids="$@"; [ -z "$ids" ] && ids=$(ls seeded)
+ids="$@"; [ -z "$ids" ] && ids=$(ls seeded | grep "^C")
 for id in $ids; do
   d=seeded/$id; pid=${id%%-*}
   if ! git -C /repo apply --check $PWD/$d/patch.diff 2>/dev/null; then echo "$id APPLY-FAILED"; continue; fi
@@ -18,7 +18,7 @@ for id in $ids; do
     done
   fi
   git -C /repo checkout -- .
-  rules=$(echo "$out" | grep -B1 "^VIOLATION" | grep -v "^VIOLATION\|^--" | awk '{print $1}' | sort -u | tr '\n' ',')
+  rules=$(echo "$out" | awk '/^  [A-Z][A-Za-z0-9-]+ [^ ]+:[0-9]+ in /{r=$1} /^VIOLATION/{print r}' | sort -u | tr '\n' ',')
   err=$(echo "$out" | grep -c "ANALYSIS-ERROR")
   echo "$id exit=$rc rules=$rules analysis_errors=$err other_props=[$others ]"
 done
